@@ -11,6 +11,7 @@ import (
 	"strings"
 
 	"github.com/compose-spec/compose-go/v2/cli"
+	"github.com/compose-spec/compose-go/v2/loader"
 )
 
 type c17WEnv struct {
@@ -310,6 +311,17 @@ func realC17Load(raw json.RawMessage) any {
 			fns = append(fns, cli.WithConfigFileEnv)
 		case "defcfg":
 			fns = append(fns, cli.WithDefaultConfigPath)
+		case "interp":
+			fns = append(fns, cli.WithInterpolation(o.B))
+		case "envfile": // deprecated singular form; the empty path selects the default .env
+			if o.V == "" {
+				fns = append(fns, cli.WithEnvFile(""))
+			} else {
+				fns = append(fns, cli.WithEnvFile(filepath.Join(edir, o.V)))
+			}
+		case "loname": // a SetProjectName smuggled in through WithLoadOptions: withNamePrecedenceLoad runs after it
+			v, b := o.V, o.B
+			fns = append(fns, cli.WithLoadOptions(func(lo *loader.Options) { lo.SetProjectName(v, b) }))
 		default:
 			return c17Bad("unknown option %s", o.Op)
 		}
